@@ -64,7 +64,22 @@ Theorem C19_table :
     [98;117;102;102;101;114;45;115;105;122;101]].
 Proof. reflexivity. Qed.
 
+(* every setting's environment variable carries the documented name - PS3NETSRV_ followed by the flag name in upper case
+   with '_' for '-' (README: PS3NETSRV_ROOT for --root) - and the documented defaults are the ones in the struct tags *)
+Definition env_name_of (flag : list Z) : list Z :=
+  [80;83;51;78;69;84;83;82;86;95] ++ map (fun ch => if ch =? 45 then 95 else if (97 <=? ch) && (ch <=? 122) then ch - 32 else ch) flag.
+
+Theorem C19_env_names : map (fun s => fst (snd s)) server_settings = map (fun s => env_name_of (fst s)) server_settings.
+Proof. reflexivity. Qed.
+
+Theorem C19_defaults :
+  map (fun s => snd (snd s)) server_settings
+  = [[46]; [48;46;48;46;48;46;48;58;51;56;48;48;56]; []; []; []; [49;48;109]; []; []; []; [54;52;107]].   (* "." "0.0.0.0:38008" "10m" "64k" *)
+Proof. reflexivity. Qed.
+
 Print Assumptions C19_flag_wins.
+Print Assumptions C19_env_names.
+Print Assumptions C19_defaults.
 Print Assumptions C19_channel_equiv.
 Print Assumptions C19_discovery.
 Print Assumptions C19_fail_closed.
